@@ -39,6 +39,7 @@ FLOORS = {'UNIFORM': 30, 'FRAME': 3, 'CONCAT': 8, 'REPEAT': 3, 'ADJUST': 4}
 def run(ctx):
   tp = cov.time_paths(ctx.S)
   ctx.require(len(tp) >= 10, 'schema lists only %d time-bearing paths' % len(tp))
+  fields_named(ctx, tp)      # location-independent rules first
   uniform(ctx, 'shift_sequence_times', {'sequence': own.NS}, {}, tp, 'aug:Add', 'shift_seconds',
           extra_allowed={('subsequence_info',): ('call:ClearField',)})
   for flag in (False, True):
@@ -48,6 +49,27 @@ def run(ctx):
   adjust(ctx, tp)
   concat(ctx)
   repeat(ctx)
+
+
+def fields_named(ctx, tpaths):
+  """Location-independent (a necessary condition): a function that moves "every note and event time" has to reach every repeated
+  field of NoteSequence whose elements carry a time (music.proto, via the schema).  Unless it walks the fields generically
+  (ListFields / DESCRIPTOR), a container it never names - neither as an attribute nor as a string handed to getattr - cannot be
+  reached: its events keep their old times."""
+  containers = sorted(set(p[0] for p in tpaths if len(p) >= 2 and p[0] != 'subsequence_info'))
+  for name in ('shift_sequence_times', 'stretch_note_sequence', 'adjust_notesequence_times'):
+    fi = ctx.func(SL + ':' + name)
+    fn = fi.node
+    if any(isinstance(n, ast.Attribute) and n.attr in ('ListFields', 'DESCRIPTOR', 'fields_by_name') for n in ast.walk(fn)):
+      continue
+    nodes = U.reachable_nodes(fi)
+    if any(isinstance(n, ast.Attribute) and n.attr in ('ListFields', 'DESCRIPTOR', 'fields_by_name') for n in nodes):
+      continue
+    named = set(n.attr for n in nodes if isinstance(n, ast.Attribute)) | set(n.value for n in nodes if isinstance(n, ast.Constant) and isinstance(n.value, str))
+    missing = [c for c in containers if c not in named]
+    ctx.ob('UNIFORM/fields-named', fi, fn, not missing, '%s names all %d time-bearing containers' % (name, len(containers)) if not missing else
+           '%s never names %s (a repeated field of NoteSequence whose elements carry a time): its events are not moved with the rest' % (name, ', '.join(missing)),
+           construct='%s reaches every time-bearing container' % name, definite=True)
 
 
 def interp_knots(ctx):
@@ -414,8 +436,29 @@ def concat(ctx):
          'deletion condition is not "equalised copy == predecessor -> delete events[i]"', construct='if tmp == events[i - 1]: del events[i]')
 
 
+def repeat_passes_through_concat(ctx, fi):
+  """Location-independent (must-pass-through): the repetition "is the concatenation of enough copies cut at the requested
+  duration" - also when one copy is enough, because concatenate_sequences does more than join (it drops repeated tempo / time
+  signature / key events and duplicate metadata).  Whatever is handed to the cutting step must have been produced by
+  concatenate_sequences on every path: a second binding of that variable to anything else is a path around it."""
+  fn = fi.node
+  cuts = [c for c in U.calls_in(fn) if (dotted(c.func) or '') in ('extract_subsequence', '_extract_subsequences', 'trim_note_sequence') and c.args and isinstance(c.args[0], ast.Name)]
+  for c in cuts:
+    name = c.args[0].id
+    binds = [s for s in U.walk_stmts(fn) if isinstance(s, ast.Assign) and len(s.targets) == 1 and isinstance(s.targets[0], ast.Name) and s.targets[0].id == name]
+    if not binds or not any(isinstance(s.value, ast.Call) and dotted(s.value.func) == 'concatenate_sequences' for s in binds):
+      continue
+    other = [s for s in binds if not (isinstance(s.value, ast.Call) and dotted(s.value.func) == 'concatenate_sequences')]
+    ctx.ob('REPEAT/through-concatenate', fi, other[0] if other else binds[0], not other, 'the sequence that is cut always comes from concatenate_sequences' if not other else
+           '%s reaches the cutting step %s without passing through concatenate_sequences (under %s): a single copy keeps the repeated tempo / time-signature / key events and '
+           'duplicate metadata that a concatenation of one piece drops, so the result is not "the concatenation of enough copies cut at the duration"' % (
+               norm_text(other[0]), norm_text(c.func), ', '.join(('' if p else 'not ') + norm_text(t) for t, p in U.path_conditions(fn, other[0])) or 'no condition'),
+           construct='repeat: cut(concatenate(copies))', definite=True)
+
+
 def repeat(ctx):
   fi = ctx.func(SL + ':repeat_sequence_to_duration')
+  repeat_passes_through_concat(ctx, fi)
   fi = Canon(fi, roles.discover(fi, {
       'num_repeats': lambda fn: roles.assigned_where(fn, lambda v, st: any(isinstance(b, ast.BinOp) and isinstance(b.op, (ast.Div, ast.FloorDiv)) and
                                                                           norm_text(b.left) == 'duration' for b in ast.walk(v))),
